@@ -201,25 +201,68 @@ func c02Case(i int64) (jast.Node, O, string) {
 	return c02Head(shape, filters), doc, tag
 }
 
+// ---- grid 3: the predicate's value differs per item (a member of the item, or the item itself)
+
+var c02Vals = []interface{}{-1.0, 0.0, 1.0, 2.0, 1.5, true, false, A{0.0, 2.0}, nil, "s"}
+
+func c02Grid3() int64 { return int64(10+100+1000+10000) * 4 }
+
+func c02Case3(i int64) (jast.Node, O, string) {
+	shape := int(i % 4)
+	i /= 4
+	l := 1
+	for n := int64(10); i >= n; n *= 10 {
+		i -= n
+		l++
+	}
+	items, raw := A{}, A{}
+	for k := 0; k < l; k++ {
+		v := c02Vals[i%10]
+		i /= 10
+		it := O{"id": float64(k)}
+		if v != nil {
+			it["pos"] = v
+			raw = append(raw, v)
+		}
+		items = append(items, it)
+	}
+	pos := []jast.Node{&jast.Name{V: "pos"}}
+	switch shape {
+	case 0:
+		return c02Head(0, pos), O{"x": items}, "grid3-member"
+	case 1:
+		return c02Head(1, pos), O{"x": items}, "grid3-member"
+	case 2:
+		return c02Head(2, pos), O{"x": items}, "grid3-member"
+	}
+	return c02Head(0, []jast.Node{&jast.Var{Name: ""}}), O{"x": raw}, "grid3-self"
+}
+
 func init() {
 	fw.Register(&fw.Prop{
 		ID: "C02", Title: "Predicates filter by truth value or select by position, per context item",
 		Rule: "cases: (a) exhaustive grid: array lengths 0..5 x positions -7..7 step 0.5 (29) x 10 predicate forms (literal n, $$.n, [n], [n,n], [n,m] for 6 m) x 5 head shapes (x[p], (x)[p], $v[p], $.x[p], y.x[p] with x nested in a 2-element y); " +
 			"(b) the same grid with a second stacked predicate [0], [-1], [true] on a name head and on a variable head over arrays of arrays (the two stacking rules); " +
+			"(b2) per-item predicate values: arrays of 1..4 objects whose member pos is each of -1,0,1,2,1.5,true,false,[0,2],absent,'s' (all 11110 combinations) under x[pos], (x)[pos], $v[pos], and the raw values under x[$]; " +
 			"(c) PRNG-generated paths as in C01 with 1..3 stacked predicates on any step or on the parenthesised path: comparisons on members, against root members, and/or, numbers (negative, fractional, out of range, computed, from the document), number arrays (literal and $$.idx), mixed arrays, strings, objects, missing, booleans. " +
 			"Oracle: reference model, exact; empty array identified with 'no value' at whole-result level. non-trivial = every case (each has a predicate); distinct by (program, input)",
 		Assumptions: []string{"JSON null inside documents is excluded", "stacked predicates: merged on field-name steps, nested on other heads (as the property's quantifier prescribes)"},
 		Plan: func(tier string, seed uint64) *fw.Plan {
 			nRand := int64(30000)
-			n1, n2 := c02Grid1(), c02Grid2()
+			n1, n2, n3 := c02Grid1(), c02Grid2(), c02Grid3()
 			if tier == "thorough" {
 				nRand = 1500000
 			}
-			return &fw.Plan{N: n1 + n2 + nRand,
-				Subspaces: []string{fmt.Sprintf("grid of %d (length, position, predicate form, head shape) cases", n1), fmt.Sprintf("stacked grid of %d cases", n2)},
+			return &fw.Plan{N: n1 + n2 + n3 + nRand,
+				Subspaces: []string{fmt.Sprintf("grid of %d (length, position, predicate form, head shape) cases", n1), fmt.Sprintf("stacked grid of %d cases", n2), fmt.Sprintf("per-item predicate value grid of %d cases", n3)},
 				Run: func(i int64, r *fw.Rec) {
 					if i < n1+n2 {
 						tree, doc, tag := c02Case(i)
+						runPathCase(r, tree, doc, tag, false, &jast.Style{})
+						return
+					}
+					if i < n1+n2+n3 {
+						tree, doc, tag := c02Case3(i - n1 - n2)
 						runPathCase(r, tree, doc, tag, false, &jast.Style{})
 						return
 					}
